@@ -19,6 +19,10 @@ type TypeInfo struct {
 }
 
 func newTypeInfo(c *Ctx) *TypeInfo {
+	// the net/netip records are declared up front: library models build such values without going through sortOf
+	c.DeclareRecord("Addr", "mkaddr", []string{"addr_hi", "addr_lo", "addr_z"}, []string{SBV(64), SBV(64), SBV(8)})
+	c.DeclareRecord("Prefix", "mkprefix", []string{"pfx_addr", "pfx_bits1"}, []string{"Addr", SBV(8)})
+	c.DeclareRecord("AddrPort", "mkaddrport", []string{"ap_addr", "ap_port"}, []string{"Addr", SBV(16)})
 	return &TypeInfo{c: c, structs: map[string]string{}, tparams: map[string]string{}}
 }
 
